@@ -227,3 +227,112 @@ Theorem analyze_refuted_with_cut_key :
 Proof.
   exists eAB, [rowB]. split; [reflexivity|]. split; [reflexivity|]. split; [reflexivity|]. split; reflexivity.
 Qed.
+
+(* the model's analyze_cond is the instance of analyze_cond_k at the faithful printer, for every expression and state *)
+Lemma analyze_cond_k_faithful : forall e st, analyze_cond_k attr_sel_string e st = analyze_cond e st.
+Proof.
+  fix IH 1. intros [h ao tl] st. cbn [analyze_cond_k analyze_cond].
+  destruct h as [t|e'].
+  - destruct (find_key (attr_sel_string t) (snd st)) as [i|]; (destruct tl as [t'|]; [rewrite IH|]; reflexivity).
+  - rewrite (IH e' st). destruct (analyze_cond e' st) as [res st1]. destruct tl as [t'|]; [rewrite IH|]; reflexivity.
+Qed.
+
+(* ---------- the analysis is right for EVERY printer that separates the terms of the selector ---------- *)
+Section ANYKEY.
+  Variable re_match : string -> string -> bool.
+  Variable parse_float : string -> option Q.
+  Variable lit_round : bool.
+  Variable key : attr_sel -> string.
+  Notation tsem := (term_sem re_match parse_float lit_round).
+  Notation esem := (exp_sem re_match parse_float lit_round).
+  Notation csem := (cond_sem re_match parse_float lit_round).
+  Definition key_inj (U : list attr_sel) : Prop := forall a b, In a U -> In b U -> key a = key b -> a = b.
+  Local Open Scope list_scope.
+
+  (* the map of analyzeCond is consistent with its term list *)
+  Definition st_ok_k (U : list attr_sel) (st : an_state) : Prop :=
+    (forall k i, find_key k (snd st) = Some i -> exists t, nth_error (fst st) i = Some t /\ key t = k)
+    /\ (forall i t, nth_error (fst st) i = Some t -> In t U).
+
+  Lemma st_ok_k_nil U : st_ok_k U ([], []).
+  Proof. split; [intros k i H; discriminate|intros [|i] t H; discriminate]. Qed.
+
+  Fixpoint analyze_cond_k_ok (U : list attr_sel) (HU : key_inj U) (e : attr_exp) {struct e} :
+    forall st c st',
+      (forall t, In t (exp_terms e) -> In t U) -> st_ok_k U st -> analyze_cond_k key e st = (c, st') ->
+      st_ok_k U st' /\ (exists ext, fst st' = fst st ++ ext) /\ cond_wf (List.length (fst st')) c
+      /\ forall rows, csem (fst st') rows c = esem e rows.
+  Proof.
+    destruct e as [h ao tl]. intros st c st' Hin Hst Han. cbn [analyze_cond_k] in Han.
+    (* the head *)
+    assert (Hhead : forall res st1,
+               match h with
+               | HParen e' => analyze_cond_k key e' st
+               | HTerm t =>
+                   match find_key (key t) (snd st) with
+                   | Some i => (CTerm i, st)
+                   | None => (CTerm (List.length (fst st)), (fst st ++ [t], (key t, List.length (fst st)) :: snd st))
+                   end
+               end = (res, st1) ->
+               st_ok_k U st1 /\ (exists ext, fst st1 = fst st ++ ext) /\ cond_wf (List.length (fst st1)) res
+               /\ forall rows, csem (fst st1) rows res =
+                               match h with HTerm t => existsb (tsem t) rows | HParen e' => esem e' rows end).
+    { intros res st1 E. destruct h as [t|e'].
+      - assert (HtU : In t U) by (apply Hin; cbn; left; reflexivity).
+        destruct (find_key (key t) (snd st)) as [i|] eqn:Ek.
+        + inversion E; subst res st1; clear E.
+          destruct Hst as [Hmap HinU]. destruct (Hmap _ _ Ek) as [t0 [Hn Hk]].
+          split; [split; assumption|]. split; [exists []; now rewrite app_nil_r|].
+          split; [cbn; apply nth_error_Some; congruence|].
+          intros rows. cbn [cond_sem]. rewrite Hn.
+          assert (t0 = t) as -> by (apply HU; [eapply HinU; eassumption|assumption|assumption]). reflexivity.
+        + inversion E; subst res st1; clear E. cbn [fst snd].
+          destruct Hst as [Hmap HinU].
+          split; [split|].
+          * intros k i Hf. cbn [find_key fst snd] in Hf |- *.
+            destruct (String.eqb k (key t)) eqn:Ekk.
+            -- injection Hf as <-. exists t. split; [now rewrite nth_error_app2, Nat.sub_diag by lia|].
+               symmetry. now apply String.eqb_eq.
+            -- destruct (Hmap _ _ Hf) as [t0 [Hn Hk]]. exists t0. split; [|assumption].
+               rewrite nth_error_app1; [assumption|]. apply nth_error_Some. congruence.
+          * intros i t0 Hn. cbn [fst snd] in Hn. destruct (Nat.lt_ge_cases i (List.length (fst st))) as [Hlt|Hge].
+            -- rewrite nth_error_app1 in Hn by assumption. eapply HinU; eassumption.
+            -- rewrite nth_error_app2 in Hn by assumption.
+               destruct (i - List.length (fst st))%nat as [|k]; cbn in Hn; [inversion Hn; now subst|destruct k; discriminate].
+          * split; [exists [t]; reflexivity|]. split; [cbn; rewrite app_length; cbn; lia|].
+            intros rows. cbn [cond_sem]. now rewrite nth_error_app2, Nat.sub_diag by lia.
+      - apply (analyze_cond_k_ok U HU e' st res st1); [|assumption|assumption].
+        intros t Ht. apply Hin. cbn. apply in_or_app. left. assumption. }
+    destruct (match h with
+              | HParen e' => analyze_cond_k key e' st
+              | HTerm t =>
+                  match find_key (key t) (snd st) with
+                  | Some i => (CTerm i, st)
+                  | None => (CTerm (List.length (fst st)), (fst st ++ [t], (key t, List.length (fst st)) :: snd st))
+                  end
+              end) as [res st1] eqn:Eh.
+    destruct (Hhead res st1 eq_refl) as [Hst1 [[ext1 Hext1] [Hwf1 Hsem1]]].
+    destruct tl as [t'|].
+    - destruct (analyze_cond_k key t' st1) as [r2 st2] eqn:Et. inversion Han; subst c st'; clear Han.
+      destruct (analyze_cond_k_ok U HU t' st1 r2 st2) as [Hst2 [[ext2 Hext2] [Hwf2 Hsem2]]]; [|assumption|assumption|].
+      { intros t Ht. apply Hin. cbn. apply in_or_app. right. assumption. }
+      split; [assumption|]. split; [exists (ext1 ++ ext2); now rewrite Hext2, Hext1, app_assoc|].
+      split; [cbn; split; [|assumption]; eapply cond_wf_mono; [|eassumption]; rewrite Hext2, app_length; lia|].
+      intros rows. cbn [cond_sem exp_sem]. rewrite Hsem2, Hext2, csem_ext, Hsem1 by assumption.
+      destruct ao; reflexivity.
+    - inversion Han; subst c st'; clear Han.
+      split; [assumption|]. split; [exists ext1; assumption|]. split; [assumption|].
+      intros rows. cbn [exp_sem]. apply Hsem1.
+  Qed.
+
+
+  Theorem analyze_any_injective_key (e : attr_exp) :
+    key_inj (exp_terms e) ->
+    let '(c, st) := analyze_cond_k key e ([], []) in
+    forall rows, csem (fst st) rows c = esem e rows.
+  Proof.
+    intros Hk. destruct (analyze_cond_k key e ([], [])) as [c st] eqn:E.
+    destruct (analyze_cond_k_ok (exp_terms e) Hk e ([], []) c st (fun t H => H) (st_ok_k_nil _) E) as [_ [_ [_ Hsem]]].
+    exact Hsem.
+  Qed.
+End ANYKEY.
